@@ -876,3 +876,54 @@ pub fn check_all(stream: &[Ev], o: &Opts) -> Vec<Violation> {
     }
     viol
 }
+
+// ------------------------------------------------------------------------------------------
+// the default terminal reporter `Summarize<Normalize<Basic>>`: its `[Summary]` totals must agree
+// with the individual entries of the report (= the facts of the stream)
+
+/// Returns `(violations, skipped)`; `skipped` is true when the stream has one of the shapes for
+/// which Summarize's scenario counters are a recorded known finding of C12 (D2, D5a, D5b) or are
+/// unconstrained (aborted retry chain, reading R2): the totals are then not compared here.
+pub fn check_terminal_summary(stream: &[Ev], own_steps_of: &dyn Fn(usize) -> usize) -> (Vec<Violation>, bool) {
+    use super::c12::{ParsedSummary, parse_summary, recount};
+    let keys: Vec<super::Key> = stream.iter().map(super::decode).collect();
+    let c = recount(&keys, own_steps_of);
+    if c.has_nonfinal_hook_failure || c.has_retried_without_own_steps || c.has_hook_failure_after_retry || c.sc_aborted > 0 {
+        return (vec![], true);
+    }
+    let text = match guarded(|| {
+        let sink = Sink::default();
+        let mut w = writer::Summarize::new(writer::Basic::new(sink.clone(), Coloring::Never, Verbosity::Default));
+        let cli = writer::basic::Cli { verbose: 0, color: Coloring::Never };
+        for e in stream {
+            block_on(w.handle_event(e.clone(), &cli));
+        }
+        String::from_utf8_lossy(&sink.0.borrow()).into_owned()
+    }) {
+        Ok(t) => t,
+        Err(p) => return (vec![v("terminal/summary-panic", p)], false),
+    };
+    let Some(i) = text.rfind("[Summary]") else {
+        return (vec![v("terminal/summary-missing", "the default terminal reporter printed no [Summary] block".into())], false);
+    };
+    match parse_summary(text[i..].trim_end()) {
+        Err(e) => (vec![v("terminal/summary-text", e)], false),
+        Ok(p) => {
+            let exp = ParsedSummary {
+                features: c.features,
+                rules: c.rules,
+                scenarios_total: c.sc_passed + c.sc_skipped + c.sc_failed,
+                sc: [c.sc_passed, c.sc_skipped, c.sc_failed, p.sc[3]],
+                steps_total: c.steps_passed + c.steps_skipped + c.steps_failed,
+                st: [c.steps_passed, c.steps_skipped, c.steps_failed, c.steps_retried],
+                parsing_errors: c.parsing_errors,
+                hook_errors: c.hook_errors,
+            };
+            if p != exp || p.sc[3] > c.sc_retried_max {
+                (vec![v("terminal/summary-totals", format!("the [Summary] block says {p:?}, the entries of the report add up to {exp:?} (retried scenarios at most {})", c.sc_retried_max))], false)
+            } else {
+                (vec![], false)
+            }
+        }
+    }
+}
